@@ -32,6 +32,29 @@ func KDCProxyMessage(kerb []byte, realm string, withRealm bool) []byte {
 	return DerTLV(0x30, body)
 }
 
+// KDCProxyMessageHint is KDCProxyMessage with the optional dclocator-hint [2] INTEGER (hint < 0:
+// absent).
+func KDCProxyMessageHint(kerb []byte, realm string, withRealm bool, hint int64) []byte {
+	body := DerTLV(0xA0, DerTLV(0x04, kerb))
+	if withRealm {
+		body = append(body, DerTLV(0xA1, DerTLV(0x1B, []byte(realm)))...)
+	}
+	if hint >= 0 {
+		var v []byte
+		for x := hint; ; x >>= 8 {
+			v = append([]byte{byte(x)}, v...)
+			if x>>8 == 0 {
+				break
+			}
+		}
+		if v[0]&0x80 != 0 {
+			v = append([]byte{0}, v...)
+		}
+		body = append(body, DerTLV(0xA2, DerTLV(0x02, v))...)
+	}
+	return DerTLV(0x30, body)
+}
+
 func derRead(b []byte) (tag byte, content, rest []byte, err error) {
 	if len(b) < 2 {
 		return 0, nil, nil, errors.New("der: short")
